@@ -1,6 +1,7 @@
 package main
 
 import (
+	"strconv"
 	"fmt"
 	"go/token"
 	"go/types"
@@ -1235,4 +1236,122 @@ func dominatedByTrue(cond ssa.Value, b *ssa.BasicBlock) bool {
 		}
 	}
 	return false
+}
+
+// ---------------------------------------------------------------- a destination of its own per iteration (C12, C15)
+//   //@ func F / fresh-per-iteration callee argIndex allocator
+// Every call of `callee` that F makes inside a loop passes, as argument argIndex, a value derived from a call of
+// `allocator` made in the same iteration (a block of the same innermost loop): what one iteration writes through it
+// cannot be storage that an earlier iteration has already handed out.
+
+func init() { structuralChecks = append(structuralChecks, checkFreshPerIteration) }
+
+func checkFreshPerIteration(P *Program, prop string) []StructResult {
+	var out []StructResult
+	for _, key := range P.FuncOrd {
+		d := P.Funcs[key]
+		if !hasProp(d.Props(), prop) {
+			continue
+		}
+		for _, c := range d.Get("fresh-per-iteration") {
+			f := strings.Fields(c.Text)
+			res := StructResult{Name: key + ":fresh-per-iteration:" + strings.Join(f, ":"), OK: true}
+			fn := P.fnByKey[key]
+			if len(f) != 3 || fn == nil {
+				res.OK, res.Detail = false, "expected: fresh-per-iteration callee argIndex allocator"
+				out = append(out, res)
+				continue
+			}
+			argIdx, _ := strconv.Atoi(f[1])
+			site := 0
+			if j := strings.LastIndex(f[0], "#"); j > 0 {
+				site, _ = strconv.Atoi(f[0][j+1:])
+				f[0] = f[0][:j]
+			}
+			loops := findLoops(fn)
+			innermost := func(b *ssa.BasicBlock) *loopInfo {
+				var best *loopInfo
+				for _, li := range loops {
+					if li.body[b] && (best == nil || len(li.body) < len(best.body)) {
+						best = li
+					}
+				}
+				return best
+			}
+			calleeName := func(ci ssa.CallInstruction) string {
+				if callee := ci.Common().StaticCallee(); callee != nil {
+					if callee.Pkg != nil && callee.Pkg.Pkg.Path() != enginePath && callee.Pkg.Pkg.Path() != rootPath {
+						return externKey(callee)
+					}
+					return shortKey(fnKey(callee))
+				}
+				return ""
+			}
+			n := 0
+			// call sites of the callee in source order
+			var poss []token.Pos
+			for _, b := range fn.Blocks {
+				for _, in := range b.Instrs {
+					if ci, ok := in.(ssa.CallInstruction); ok && calleeName(ci) == f[0] {
+						poss = append(poss, in.Pos())
+					}
+				}
+			}
+			sort.Slice(poss, func(i, j int) bool { return poss[i] < poss[j] })
+			for _, b := range fn.Blocks {
+				for _, in := range b.Instrs {
+					ci, ok := in.(ssa.CallInstruction)
+					if !ok || calleeName(ci) != f[0] {
+						continue
+					}
+					if site > 0 && (site > len(poss) || poss[site-1] != in.Pos()) {
+						continue
+					}
+					li := innermost(b)
+					if li == nil || argIdx >= len(ci.Common().Args) {
+						continue
+					}
+					n++
+					// backward data flow from the argument to a call of the allocator
+					found, inLoop := false, false
+					seen := map[ssa.Value]bool{}
+					var walk func(v ssa.Value, depth int)
+					walk = func(v ssa.Value, depth int) {
+						if v == nil || seen[v] || depth > 12 {
+							return
+						}
+						seen[v] = true
+						if call, ok := v.(*ssa.Call); ok && calleeName(call) == f[2] {
+							found = true
+							if li.body[call.Block()] {
+								inLoop = true
+							}
+							return
+						}
+						if instr, ok := v.(ssa.Instruction); ok {
+							for _, op := range instr.Operands(nil) {
+								if *op != nil {
+									walk(*op, depth+1)
+								}
+							}
+						}
+					}
+					walk(ci.Common().Args[argIdx], 0)
+					if !found || !inLoop {
+						res.OK = false
+						res.Detail += fmt.Sprintf("the call at %s does not get argument %d from a %s made in the same iteration; ", posOf(fn, in.Pos()), argIdx, f[2])
+					}
+				}
+			}
+			if res.OK {
+				if n == 0 {
+					res.OK, res.Detail = false, "no call of "+f[0]+" inside a loop"
+				} else {
+					res.Detail = fmt.Sprintf("%d call(s) of %s in loops, each with argument %d derived from a %s of the same iteration", n, f[0], argIdx, f[2])
+				}
+			}
+			out = append(out, res)
+		}
+	}
+	return out
 }
